@@ -15,10 +15,13 @@ extern uint64_t g_sum_bits;
 #define CL(i) (ST(i) > 6 * (int64_t)blocktime ? 6 * (int64_t)blocktime : ST(i) < -6 * (int64_t)blocktime ? -6 * (int64_t)blocktime : ST(i))
 #define TERM(i) ((i) < M ? CL(i) * (int64_t)(PERIOD - (i)-1) : 0)
 #define BT(i) ((i) < M ? (uint64_t)bits[(i) + 1] : 0)
-int32_t w_vbk_weighted_time_c(const uint32_t* ts, const uint32_t* bits, uint32_t n, uint32_t period, uint32_t blocktime, uint32_t* out)
+/* EARLY: no retargeting, or the parent is below the retarget period: the parent's difficulty is kept (marker out[0] = 0xffffffff) */
+#define EARLY (noRetarget != 0 || (uint32_t)h0 < PERIOD)
+int32_t w_vbk_weighted_time_c(const uint32_t* ts, const uint32_t* bits, uint32_t n, uint32_t period, uint32_t blocktime, uint32_t* out, int32_t h0, int noRetarget)
 __CPROVER_requires(__CPROVER_is_fresh(ts, NCH * 4) && __CPROVER_is_fresh(bits, NCH * 4) && __CPROVER_is_fresh(out, 16))
-__CPROVER_requires(n >= 1 && n <= NCH && period == PERIOD && blocktime >= 1 && blocktime <= 65535)
+__CPROVER_requires(n >= 1 && n <= NCH && period == PERIOD && blocktime >= 1 && blocktime <= 65535 && h0 >= 0 && h0 <= 1000000)
 __CPROVER_assigns(__CPROVER_object_whole(out), g_sum_calls, g_sum_bits)
-__CPROVER_ensures((int64_t)RET == TERM(0) + TERM(1) + TERM(2) + TERM(3) + TERM(4) + TERM(5))
-__CPROVER_ensures(out[0] == M && out[1] == M)
-__CPROVER_ensures((((uint64_t)out[3] << 32) | out[2]) == BT(0) + BT(1) + BT(2) + BT(3) + BT(4) + BT(5));
+__CPROVER_ensures(EARLY ==> (out[0] == 0xffffffffu && RET == 0))
+__CPROVER_ensures(!EARLY ==> (int64_t)RET == TERM(0) + TERM(1) + TERM(2) + TERM(3) + TERM(4) + TERM(5))
+__CPROVER_ensures(!EARLY ==> (out[0] == M && out[1] == M))
+__CPROVER_ensures(!EARLY ==> (((uint64_t)out[3] << 32) | out[2]) == BT(0) + BT(1) + BT(2) + BT(3) + BT(4) + BT(5));
